@@ -33,8 +33,23 @@ def regen(ctx):
     write_if_changed(os.path.join(core.LEAN, "AwsVerif", "Gen", "RingValid.lean"), text)
 
 
+HUGE = ["MAX", "MAX-1", "MAX-7", "MAX-31", "MAX-63", "HALF", "HALF+1", "4294967296", "4294967295"]
+SIZE_MAX = 2 ** 64 - 1
+
+
+def psize(tok):
+    """sizes as the harness / driver read them: decimal, MAX, MAX-k, HALF, HALF+k"""
+    for name, base in (("MAX", SIZE_MAX), ("HALF", SIZE_MAX // 2)):
+        if tok.startswith(name):
+            rest = tok[len(name):]
+            return base + (int(rest) if rest else 0)
+    return int(tok)
+
+
 def _sizes(rng, n):
     r = rng.random()
+    if r < 0.06:
+        return rng.choice(HUGE)      # address arithmetic on such a request must not wrap: it is simply refused
     if r < 0.15:
         return rng.choice([1, n, n + 1, max(1, n - 1), 0])
     if r < 0.6:
@@ -58,6 +73,12 @@ def gen_case(rng, maxops):
             ops.append(f"acq {k} {p} {_sizes(rng, n)}{live}")
         elif r < 0.65:
             q = _sizes(rng, n)
+            if isinstance(q, str):
+                m = rng.choice([q, q, "1", str(n), str(n + 1), "HALF"])     # huge requested size, minimum huge or small
+                if psize(m) > psize(q):
+                    m = q
+                ops.append(f"upto {k} {p} {m} {q}{live}")
+                continue
             m = rng.randint(0 if rng.random() < 0.05 else 1, max(1, q)) if q > 0 else 0
             ops.append(f"upto {k} {p} {min(m, q)} {q}{live}")
         else:
@@ -89,9 +110,29 @@ def alias_case(rng):
     return Case(ops, {"n": n, "alias_idiom": True})
 
 
+def huge_case(rng):
+    """a request within a few bytes of SIZE_MAX (or 2^63, 2^32) in every ring state - empty, unwrapped with the oldest buffer
+    released (tail < head), wrapped - for both acquire forms; it must be refused and leave everything as it was"""
+    n = rng.choice([4, 8, 16, 33, 64])
+    a = rng.randint(1, n // 2)
+    b = rng.randint(1, n // 2 - 1) if n // 2 > 1 else 1
+    big = rng.choice(["MAX", f"MAX-{rng.randint(1, 63)}", f"MAX-{rng.randint(1, 63)}", "HALF", "HALF+1", "4294967296"])
+
+    def ask():
+        f = rng.random()
+        if f < 0.5:
+            return f"acq 0 0 {big}"
+        if f < 0.75:
+            return f"upto 0 0 {big} {big}"
+        return f"upto 0 0 {rng.randint(1, n + 1)} {big}"
+    ops = [f"init {n}", ask(), f"acq 0 0 {a}", f"acq 0 0 {b}", ask(), "rel", ask(), f"acq 0 0 1", f"upto 0 0 1 {n}", "rel", ask(),
+           f"acq 0 0 {max(1, n - a - b)}", "rel", ask(), f"acq 0 0 {a}", ask(), "rel", "rel", "rel", "rel", ask(), f"acq 0 0 {n}"]
+    return Case(ops, {"n": n, "huge": True})
+
+
 def exhaustive_cases(n, depth):
     """all op sequences of the given length over a ring of n bytes (sizes 1..n+1, k in 0..2)"""
-    alphabet = ["rel"]
+    alphabet = ["rel", "acq 0 0 MAX", "acq 0 0 MAX-15", "upto 0 0 MAX MAX", "upto 0 0 1 MAX", f"upto 0 0 {n} HALF+1"]
     for q in range(1, n + 2):
         for (k, p) in ((0, 0), (1, 1), (1, 2), (2, 1), (2, 3)):
             alphabet.append(f"acq {k} {p} {q}")
@@ -113,6 +154,7 @@ def exhaustive_cases(n, depth):
 def gen_cases(rng, tier):
     cases = [gen_case(rng, 40) for _ in range(3000 if tier == "quick" else 60000)]
     cases += [alias_case(rng) for _ in range(400 if tier == "quick" else 5000)]
+    cases += [huge_case(rng) for _ in range(400 if tier == "quick" else 5000)]
     cases += exhaustive_cases(2, 3) + exhaustive_cases(3, 2)
     if tier == "thorough":
         cases += exhaustive_cases(3, 3) + exhaustive_cases(4, 3)
@@ -159,9 +201,9 @@ def oracle(case, lines):
             return []
         k, p = int(t[1]), int(t[2])
         if t[0] == "acq":
-            lo = hi = int(t[3])
+            lo = hi = psize(t[3])
         else:
-            lo, hi = int(t[3]), int(t[4])
+            lo, hi = psize(t[3]), psize(t[4])
         valid_args = lo > 0 and hi > 0
         def do_rels():
             for _ in range(k):
@@ -216,7 +258,7 @@ def _debug_cases(rng):
     the assertions add atomic loads that shift the injection points; boundary-heavy sizes (full-capacity grants)"""
     cases = []
     for c in exhaustive_cases(2, 2) + exhaustive_cases(3, 2) + [gen_case(rng, 30) for _ in range(600)] + \
-            [alias_case(rng) for _ in range(100)]:
+            [alias_case(rng) for _ in range(100)] + [huge_case(rng) for _ in range(100)]:
         ops = []
         for o in c.ops:
             t = o.split()
